@@ -2,7 +2,7 @@ import itertools, sys, collections
 from fractions import Fraction
 from mathy_core.expressions import *
 from mathy_core.parser import ExpressionParser
-from ex1 import holds, ENVS, Undef
+from design_probe_rules import holds, ENVS, Undef
 LEAVES=[lambda:ConstantExpression(2),lambda:ConstantExpression(-3),lambda:ConstantExpression(0.5),lambda:VariableExpression('x'),lambda:VariableExpression('y')]
 BIN=[AddExpression,SubtractExpression,MultiplyExpression,DivideExpression,PowerExpression]
 UN=[NegateExpression, lambda c: SgnExpression(c)]
